@@ -103,9 +103,18 @@ def _run_astar(job):
             return _post(lat, s, e, "raised", None)
         path = py_path(p)
         ctx.notes["sig"] = [list(x) for x in path]
-        return _post(lat, s, e, "returned", path)
+        obs = _post(lat, s, e, "returned", path)
+        # answers must not depend on earlier queries: another maze of another shape is solved in between, then the same query again
+        other = LatticeMaze(connection_list=_OTHER)
+        other.find_shortest_path((0, 0), (1, 2))
+        again = py_path(LatticeMaze(connection_list=cl).find_shortest_path(s, e))
+        obs.append(("the same query after solving a different maze returns the same path", z3.BoolVal(again == path)))
+        return obs
 
     return run
+
+
+_OTHER = np.array([[[1, 0, 1], [0, 0, 0]], [[1, 1, 0], [0, 1, 0]]], dtype=bool)  # a 2x3 tree
 
 
 def _run_solve_targeted(job):
@@ -191,6 +200,13 @@ def _replay(job, inputs, notes):
             return f"solver-walks-through-wall | step {a}->{b} in {path}; connection_list={cl.astype(int).tolist()}"
     if d is None or len(path) - 1 != d:
         return f"solver-not-shortest | returned {len(path) - 1} steps, shortest is {d}; path={path}; connection_list={cl.astype(int).tolist()}"
+    if job["h"] == "astar":
+        from maze_dataset.maze.lattice_maze import LatticeMaze
+
+        LatticeMaze(connection_list=_OTHER).find_shortest_path((0, 0), (1, 2))
+        again = [tuple(int(x) for x in p) for p in LatticeMaze(connection_list=cl).find_shortest_path(s, e)]
+        if again != path:
+            return f"solver-depends-on-history | the same query returns {again} after another maze was solved, {path} before; connection_list={cl.astype(int).tolist()}"
     return None
 
 
